@@ -112,6 +112,7 @@ func InitAllTagsTreeReader(tagsTreeBaseDir string) (*AllTagTreeReaders, error) {
 			}
 			err = fmt.Errorf("InitAllTagsTreeReader: failed to initialize tag tree reader for tag key %s in base dir %v; err=%v", tagKey, tagsTreeBaseDir, err)
 			log.Errorf(err.Error())
+			attr.CloseAllTagTreeReaders()
 			return nil, err
 		}
 	}
@@ -134,6 +135,14 @@ func (attr *AllTagTreeReaders) initTagsTreeReader(tagKey string) (*TagTreeReader
 		}
 		return nil, utils.NewErrorWithCode(err.Error(), toLogErr)
 	}
+
+	// a reader that is not handed out must not keep the file (and its lock) open
+	success := false
+	defer func() {
+		if !success {
+			fd.Close()
+		}
+	}()
 
 	err = syscall.Flock(int(fd.Fd()), syscall.LOCK_SH)
 	if err != nil {
@@ -171,6 +180,7 @@ func (attr *AllTagTreeReaders) initTagsTreeReader(tagKey string) (*TagTreeReader
 		metadataBuf: rbuf,
 	}
 	attr.tagTrees[tagKey] = ttr
+	success = true
 	return ttr, nil
 }
 
